@@ -46,6 +46,7 @@ def required_cells(tier):
         req["pair-result:" + rk] = 20 if q else 400
     for rk in ("PH", "L", "PL", "H"):
         req["pair-result:" + rk] = 2 if q else 40
+    req["history:related-questions-on-one-carrier"] = 200 if q else 4000
     req["history:returned-object-moved-by-caller"] = 100
     req["move-original"] = 100
     req["move-copy"] = 100
@@ -70,6 +71,22 @@ def cases(rng, budget, widx, nworkers, tier):
             # face, nested, coincident, parallel ...): every query is asked; operands and the library's configuration
             # (tolerance, significant figures) must be what they were
             ka, kb = rng.choice(gen.KINDS), rng.choice(gen.KINDS)
+            if rng.random() < 0.3:
+                # a family of questions about objects on ONE carrier line, asked one after the other in this process:
+                # the partner is slid along the carrier (facing, touching, overlapping, apart; both senses)
+                ka, kb = rng.choice(("H", "S", "L", "H")), rng.choice(("H", "S", "H"))
+                a, b = gen.collinear_pair(rng, ka, kb)
+                dirv = a[2] if a[0] != "S" else K.sub(a[2], a[1])
+                fam = []
+                for t in rng.sample((-3, -2, -1, gen.F(-1, 2), gen.F(1, 2), 1, 2, 3), 4):
+                    sh = K.mul(dirv, t)
+                    b2 = (b[0], K.add(b[1], sh), b[2]) if b[0] != "S" else ("S", K.add(b[1], sh), K.add(b[2], sh))
+                    if rng.random() < 0.5 and b2[0] == "H":
+                        b2 = ("H", b2[1], K.mul(b2[2], -1))
+                    if gen.ok_coords(b2, 64, 40):
+                        fam.append(b2)
+                yield {"k": "pair", "a": a, "b": b, "label": "collinear-family", "ls": rng.getrandbits(30), "family": fam}
+                continue
             (a, b), lab = gen.gen_pair(rng, ka, kb, small=True)
             yield {"k": "pair", "a": a, "b": b, "label": lab, "ls": rng.getrandbits(30)}
             continue
@@ -248,7 +265,19 @@ def _judge_pair(case):
     K.reset()
     exp = K.inter(a, b)
     mu.cell("pair:%s,%s" % (a[0], b[0]), "pair-result:" + C.kname(exp))
+    adm = core.admitted()
     x, y = C.lift_pair(case)
+    if adm:
+        # the answer itself, against the exact model: it must not depend on what this process was asked before
+        C.run_inter(G.intersection, x, y, exp, "intersection(a,b)", mu, "%s,%s" % (a[0], b[0]))
+        for b2 in case.get("family", ()):
+            K.reset()
+            exp2 = K.inter(a, b2)
+            if core.admitted():
+                mu.cell("history:related-questions-on-one-carrier")
+                from ..desc import lift as _lift
+                for xx, yy, tg in ((x, _lift(b2, None), "intersection(a,b')"), (_lift(b2, None), x, "intersection(b',a)")):
+                    C.run_inter(G.intersection, xx, yy, exp2, tg, mu, "%s,%s" % (a[0], b2[0]) if tg.endswith("b')") else "%s,%s" % (b2[0], a[0]))
     cfg0 = (G.get_eps(), G.get_sig_figures())
     for name in ("intersection", "in", "distance", "angle", "parallel", "orthogonal", "eq", "hash", "measure"):
         for p, q in ((x, y), (y, x)):
@@ -291,6 +320,7 @@ def judge(case):
         return None
 
     reask = []
+    kept_returned = []
     names = (["pool[%d]:%s" % (i, M.kind(o)) for i, o in enumerate(pool)])
     for step in case["script"]:
         if mu.viol is not None:
@@ -414,9 +444,18 @@ def judge(case):
             if target_idx == 7 or target_idx == 6:
                 pass
             try:
-                obj.move(v)
+                ret_ = obj.move(v)
+                if M.kind(obj) in ("S", "H", "PG", "PH") and ret_ is not None and ret_ is not obj:
+                    kept_returned.append(ret_)
             except Exception:
                 pass
+            # whatever move() returned earlier is still held by the caller: it must remain a consistent object of its
+            # own kind when the original moves on (a polyhedron whose faces have left its vertices is not)
+            for kr in kept_returned:
+                badk = M.invariants(kr)
+                if badk:
+                    mu.fail("object-returned-by-move-damaged-by-a-later-move:%s" % M.kind(kr), "an object returned by move() is no longer consistent after later moves: %s" % badk[0])
+                    break
             bad = compare(step, allowed)
             if bad:
                 idx, d = bad
